@@ -405,8 +405,21 @@ br_ssl_engine_set_buffers_bidi(br_ssl_engine_context *rc,
 	if (ibuf == NULL) {
 		if (rc->ibuf == NULL) {
 			br_ssl_engine_fail(rc, BR_ERR_BAD_PARAM);
+		} else {
+			/*
+			 * Context reset: the buffers set previously are
+			 * kept, but the fragment length limits must be
+			 * computed again, since the previous connection
+			 * may have lowered them (a server adopts the
+			 * length requested by its client).
+			 */
+			ibuf = rc->ibuf;
+			ibuf_len = rc->ibuf_len;
+			obuf = rc->obuf;
+			obuf_len = rc->obuf_len;
 		}
-	} else {
+	}
+	if (ibuf != NULL) {
 		unsigned u;
 
 		rc->ibuf = ibuf;
